@@ -188,6 +188,8 @@ def run(pid, tier, seed):
         ev.stat("status:" + (solvelib.ST.get(st, st) if rv == "0" else "error"))
         per_lp.setdefault(key, []).append((tag, rv, st, proto.get(blk, "objval"), lines))
         ctx = {"lp": key, "config": tag, "lines": lines}
+        rr = refmap.get(key)
+        truth = rr[0]["status"] if rr else "unknown"
         if len(solves) >= 2 and pre is None:
             # repeated solve of the same object: same status and value
             b2 = solves[1][1]
@@ -195,7 +197,7 @@ def run(pid, tier, seed):
             if not same and rv == "0":
                 rep.violation("a repeated solve of the same object changes the answer: %s/%s then %s/%s (%s)" %
                               (st, proto.get(blk, "objval"), proto.get(b2, "status"), proto.get(b2, "objval"), tag), ctx,
-                              signature={"symptom": "repeat-differs", "entry": entry})
+                              signature={"symptom": "repeat-differs", "entry": entry, "truth": truth})
         if rv == "0" and st == "1":
             x, pi = proto.get(blk, "x"), proto.get(blk, "pi")
             if x and pi and x != ["err"] and pi != ["err"]:
